@@ -223,6 +223,16 @@ func checkPath(c pathCase) (msg string, class string) {
 	if !p.OK() {
 		return fmt.Sprintf("HARNESS: %q does not parse: %v", text, p.Err), "harness"
 	}
+	if c.Used {
+		// an earlier life of the tree, too: evaluated by another runner over another caller's record
+		other := map[string]interface{}{}
+		for _, k := range c16Keys {
+			other[k] = map[string]interface{}{"a": "other", "Name": "other", "__v": "other", "k": "other"}
+		}
+		r0 := formula.NewRunner()
+		r0.SetThis(other)
+		obs.Eval(r0, context.Background(), p.Src.Expression)
+	}
 	before := obs.Snapshot(data, func(string) bool { return true })
 	out := obs.Eval(r, context.Background(), p.Src.Expression)
 	if out.Panic != nil {
